@@ -87,6 +87,13 @@ func (r *Reader) UVarInt() (uint64, error) {
 	return n, nil
 }
 
+// maxStrLen is maximum length of string that can be decoded.
+//
+// Same as DEFAULT_MAX_STRING_SIZE in ClickHouse, which limits strings of
+// protocol packets. Just like limits for rows and columns in block, this one
+// prevents accidental OOM on corrupted input.
+const maxStrLen = 1 << 30 // 1GiB
+
 func (r *Reader) StrLen() (int, error) {
 	n, err := r.Int()
 	if err != nil {
@@ -95,6 +102,11 @@ func (r *Reader) StrLen() (int, error) {
 
 	if n < 0 {
 		return 0, errors.Errorf("size %d is invalid", n)
+	}
+	if n > maxStrLen {
+		// Length is used to allocate buffer before reading, so corrupted
+		// length can cause OOM.
+		return 0, errors.Errorf("size %d is suspiciously big, maximum is %d (preventing possible OOM)", n, maxStrLen)
 	}
 	if err := verifCheckStrLen(n); err != nil {
 		return 0, err
